@@ -114,8 +114,9 @@ type vftlsPKI struct {
 	dir     string
 	caPool  *x509.CertPool // verifies the server certificates
 	caFile  string
-	clients map[string]*tls.Certificate // "self", "ca", "other"
+	clients map[string]*tls.Certificate // "self", "ca", "other", "public"
 	serials map[string]string           // serial (decimal) -> "A" | "B" | "C"
+	planted bool                        // the public CA is in this process's system trust store
 }
 
 func vftlsKey(t testing.TB) *ecdsa.PrivateKey {
@@ -191,6 +192,24 @@ func vftlsNewPKI(t testing.TB) *vftlsPKI {
 	mk("ca", 201, ca1, ca1k)
 	mk("other", 202, ca2, ca2k)
 	mk("self", 203, nil, nil)
+	// a CA of the host's trust store that is not the configured CA: the process's system store is
+	// replaced by this one CA (SSL_CERT_FILE / SSL_CERT_DIR are read when the store is first used,
+	// which has not happened yet in this process)
+	ca3, ca3k, ca3der := vftlsCA(t, "vf public CA", 3)
+	pub := filepath.Join(dir, "public-ca.pem")
+	vftlsWritePEM(t, pub, "CERTIFICATE", ca3der)
+	empty := filepath.Join(dir, "empty-certs")
+	os.MkdirAll(empty, 0700)
+	os.Setenv("SSL_CERT_FILE", pub)
+	os.Setenv("SSL_CERT_DIR", empty)
+	mk("public", 204, ca3, ca3k)
+	if sys, err := x509.SystemCertPool(); err == nil && sys != nil {
+		leaf, _ := x509.ParseCertificate(p.clients["public"].Certificate[0])
+		if _, verr := leaf.Verify(x509.VerifyOptions{Roots: sys, KeyUsages: []x509.ExtKeyUsage{x509.ExtKeyUsageClientAuth}}); verr == nil {
+			p.planted = true
+		}
+	}
+	_ = ca3
 	return p
 }
 
@@ -363,6 +382,9 @@ func TestVF_TLS(t *testing.T) {
 		}
 		okSeen, failSeen := false, false
 		for ci, c := range v.Clients {
+			if c.Cl.Cert == "public" && !pki.planted {
+				continue
+			}
 			k := everyPlain
 			if v.Cfg.Skip || v.Cfg.Suites != "default" {
 				k = every
@@ -466,5 +488,5 @@ func TestVF_TLS(t *testing.T) {
 		s.stop()
 	}
 	vfWriteJSON(t, "tls.summary.json", M{"configs": len(vecs), "handshakes": nhs, "completed": ncompleted, "nontrivial": nontrivial,
-		"rotation_steps": nrot, "lines": tr.n, "samples": samples})
+		"rotation_steps": nrot, "lines": tr.n, "samples": samples, "public_planted": pki.planted})
 }
